@@ -241,6 +241,18 @@ theorem step_events {s s' : State} {op : Op} {r : Res} (hw : WF s) (e : step s o
     simp only [step] at e
     obtain ⟨⟨e1, v⟩, _, e⟩ := bind_ok e
     cases e; exact EvStep.refl _
+  | hashIgnoreCase c =>
+    simp only [step] at e
+    obtain ⟨v, _, e⟩ := bind_ok e
+    cases e; exact EvStep.refl _
+  | initFromFile b f useHint sizeHint =>
+    simp only [step] at e
+    split at e
+    · cases e
+    · rename_i hmax
+      obtain ⟨⟨e1, m1, nb⟩, hcore, e⟩ := bind_ok e
+      cases e
+      exact (bufInitFromFile_spec (hw.bufOk b) (by omega) hcore).2.1
 
 theorem secureZeroed_step {s s' : State} (hz : SecureZeroed s) (hev : EvStep s.mem.events s'.mem.events) :
     SecureZeroed s' := by
